@@ -17,14 +17,17 @@ structure Quirks where
   sharedFallbackVar : Bool
   /-- D-20a: text-mode templates run `identify` on their single token -/
   textModeIdentify : Bool
+  /-- D-18a: `prepare_attributes` pairs `attrs` with `ns_attrs.items()` by position; `convert_data_attributes` converts
+  every `data-<bound prefix>-<name>` and raises `KeyError` for an unbound one -/
+  zipPairing : Bool
   deriving Repr, DecidableEq, Inhabited
 
 def Quirks.current : Quirks :=
   { endTagSpaceTwice := false, verbatimCommentLstrip := false, splitIgnoresSep := false,
-    attrIndexOffByOne := false, sharedFallbackVar := false, textModeIdentify := false }
+    attrIndexOffByOne := false, sharedFallbackVar := false, textModeIdentify := false, zipPairing := false }
 
 def Quirks.ideal : Quirks :=
   { endTagSpaceTwice := false, verbatimCommentLstrip := false, splitIgnoresSep := false,
-    attrIndexOffByOne := false, sharedFallbackVar := false, textModeIdentify := false }
+    attrIndexOffByOne := false, sharedFallbackVar := false, textModeIdentify := false, zipPairing := false }
 
 end ChamVerif
